@@ -268,6 +268,7 @@ func (ex *Exec) applyTypeInvariantsAtEntry(fr *Frame) {}
 
 func (ex *Exec) chanSend(fr *Frame, x *ssa.Send) {
 	ex.note("channel send: no effect modelled (partial correctness)")
+	ex.cancellableWait(fr, x, "send", nil)
 }
 
 // chanField: the struct field a channel value was loaded from (T, f), when syntactically evident.
@@ -312,6 +313,7 @@ func (ex *Exec) chanClosedTerm(ch Val) *Term {
 }
 
 func (ex *Exec) chanRecv(fr *Frame, x *ssa.UnOp, ch Val) Val {
+	ex.cancellableWait(fr, x, "receive", []Val{ch})
 	et := under(x.X.Type()).(*types.Chan).Elem()
 	v := ex.freshVal(et, "recv")
 	if ex.isCloseOnly(x.X) {
@@ -343,10 +345,38 @@ func (ex *Exec) chanClose(fr *Frame, ins ssa.Instruction, ch Val) {
 	ex.st.heap["X|$closed"] = ts.Store(reg, ref, ts.True())
 }
 
+// cancellableWait: `cancellable c` clauses of the function under verification. chans are the channels the blocking
+// operation at ins receives from (empty for a bare send): one of them must be one of the declared cancellation channels.
+func (ex *Exec) cancellableWait(fr *Frame, ins ssa.Instruction, what string, chans []Val) {
+	if ex.contract == nil || fr.fn != ex.root || len(ex.contract.Cancellable) == 0 || ex.dry != nil {
+		return
+	}
+	ts := ex.ts
+	cond := ts.False()
+	var texts []string
+	for _, cl := range ex.contract.Cancellable {
+		texts = append(texts, cl.Text)
+		c := ex.eval1(cl.E, ex.envFor(fr, nil))
+		for _, ch := range chans {
+			cond = ts.Or(cond, ex.valEq(ch, c, nil))
+		}
+	}
+	ex.oblige("cancellable", ex.siteOf(ins, ""), ins.Pos(), "this blocking "+what+" also waits on "+strings.Join(texts, " or "), cond)
+}
+
 func (ex *Exec) selectStmt(fr *Frame, x *ssa.Select) Val {
 	// nondeterministic choice of a ready case; received values unconstrained
 	ex.note("select: nondeterministic choice among cases")
 	ts := ex.ts
+	if x.Blocking {
+		var chans []Val
+		for _, s := range x.States {
+			if s.Dir == types.RecvOnly {
+				chans = append(chans, ex.reg(fr, s.Chan))
+			}
+		}
+		ex.cancellableWait(fr, x, "select", chans)
+	}
 	n := len(x.States)
 	idx := ts.Fresh("select", ex.intSort(types.Typ[types.Int]))
 	lo := int64(0)
